@@ -123,10 +123,12 @@ func genReq(t *rapid.T) Req {
 		Op: rapid.IntRange(0, len(ops)-1).Draw(t, "op"),
 		CT: rapid.SampledFrom([]string{"application/json", "application/x-alt", "application/json", "application/x-alt", "application/json; charset=utf-8", "text/unknown", "", "range", "range"}).Draw(t, "ct"),
 		// only decisive Accept headers: the order of a route's produces list is a map order inside the code under test
-		Accept: rapid.SampledFrom([]string{"application/json", "application/x-alt", "application/x-alt, application/json;q=0.5", "application/json, application/x-alt;q=0.1", "text/unknown"}).Draw(t, "accept"),
-		Cred:   rapid.SampledFrom([]string{"key1", "key2", "both", "bearer", "key1", "key2", "none", "bad1", "bad2", "badbearer", "zero-int", "zero-string", "zero-bool", "zero-struct"}).Draw(t, "cred"),
-		Body:   rapid.SampledFrom([]string{"ok", "ok", "ok", "ok", "missing-field", "garbage", "none"}).Draw(t, "body"),
-		N:      rapid.SampledFrom([]string{"", "1", "7", "x", "2147483648"}).Draw(t, "n"),
+		Accept: rapid.SampledFrom([]string{"application/json", "application/x-alt", "application/x-alt, application/json;q=0.5", "application/json, application/x-alt;q=0.1", "text/unknown",
+			// two header lines, and the requests that send only the first of them (r6)
+			"application/json;q=0.1\napplication/x-alt", "application/json;q=0.1", "application/x-alt;q=0.2\napplication/json", "application/x-alt;q=0.2"}).Draw(t, "accept"),
+		Cred: rapid.SampledFrom([]string{"key1", "key2", "both", "bearer", "key1", "key2", "none", "bad1", "bad2", "badbearer", "zero-int", "zero-string", "zero-bool", "zero-struct"}).Draw(t, "cred"),
+		Body: rapid.SampledFrom([]string{"ok", "ok", "ok", "ok", "missing-field", "garbage", "none"}).Draw(t, "body"),
+		N:    rapid.SampledFrom([]string{"", "1", "7", "x", "2147483648"}).Draw(t, "n"),
 	}
 }
 
